@@ -1238,56 +1238,87 @@ theorem asyncProcessed_status (m : Machine) (u : UEnv) (e : Ev) (s : St) :
     (processEvent (hooksAsync u m) .async m u e (emit ("#recv:" ++ e.type) s))
   exact statusRel_eng.trans (a := s) h1 h2
 
-/-- the failing branch of `_run_event_loop`: logged (counted), flag cleared, everything else kept -/
-theorem asyncStep_failed (m : Machine) (u : UEnv) (e : Ev) (s : St) (hd : ¬ s.raiseDepth > m.maxIterations)
+/-- the end-of-chain test touches the counter only -/
+theorem asyncChainEnd_fields (b : Nat) (s : St) :
+    (asyncChainEnd b s).cfg = s.cfg ∧ (asyncChainEnd b s).hist = s.hist ∧ (asyncChainEnd b s).queue = s.queue ∧
+    (asyncChainEnd b s).status = s.status ∧ (asyncChainEnd b s).trace = s.trace ∧ (asyncChainEnd b s).err = s.err ∧
+    (asyncChainEnd b s).ctx = s.ctx ∧ (asyncChainEnd b s).errors = s.errors := by
+  unfold asyncChainEnd; split <;> exact ⟨rfl, rfl, rfl, rfl, rfl, rfl, rfl, rfl⟩
+
+theorem asyncProcess_eq (m : Machine) (u : UEnv) (e : Ev) (s : St) :
+    asyncProcess m u e s = asyncChainEnd s.raiseDepth
+      (if (asyncProcessed m u e s).err.isSome then
+         { asyncProcessed m u e s with err := none, errors := (asyncProcessed m u e s).errors + 1 }
+       else asyncProcessed m u e s) := rfl
+
+/-- the failing branch of `_run_event_loop`: logged (counted), flag cleared, then the end-of-chain test
+    (which touches the counter only); everything else kept -/
+theorem asyncProcess_failed (m : Machine) (u : UEnv) (e : Ev) (s : St)
     (he : (asyncProcessed m u e s).err ≠ none) :
-    asyncStep m u e s = { asyncProcessed m u e s with err := none, errors := s.errors + 1 } := by
+    asyncProcess m u e s =
+      asyncChainEnd s.raiseDepth { asyncProcessed m u e s with err := none, errors := s.errors + 1 } := by
   have hsome : (asyncProcessed m u e s).err.isSome = true := by
     cases hh : (asyncProcessed m u e s).err with
     | none => exact absurd hh he
     | some _ => rfl
-  unfold asyncStep
-  rw [if_neg hd]
-  simp only
-  unfold asyncProcessed at hsome
-  rw [if_pos hsome]
-  have := asyncProcessed_errors m u e s
-  unfold asyncProcessed at this
-  rw [this]
-  rfl
+  rw [asyncProcess_eq, if_pos hsome, asyncProcessed_errors]
 
-theorem asyncStep_succeeded (m : Machine) (u : UEnv) (e : Ev) (s : St) (hd : ¬ s.raiseDepth > m.maxIterations)
+theorem asyncProcess_succeeded (m : Machine) (u : UEnv) (e : Ev) (s : St)
     (he : (asyncProcessed m u e s).err = none) :
-    (asyncStep m u e s).err = none ∧ (asyncStep m u e s).errors = s.errors ∧
-      (asyncStep m u e s).cfg = (asyncProcessed m u e s).cfg ∧
-      (asyncStep m u e s).status = (asyncProcessed m u e s).status := by
+    asyncProcess m u e s = asyncChainEnd s.raiseDepth (asyncProcessed m u e s) := by
   have hne : ¬ (asyncProcessed m u e s).err.isSome = true := by simp [he]
-  have herrs := asyncProcessed_errors m u e s
-  unfold asyncProcessed at hne he herrs ⊢
-  unfold asyncStep
-  rw [if_neg hd]
-  simp only
-  rw [if_neg hne]
-  split
-  · exact ⟨he, herrs, rfl, rfl⟩
-  · exact ⟨he, herrs, rfl, rfl⟩
+  rw [asyncProcess_eq, if_neg hne]
+
+theorem asyncProcess_err_none (m : Machine) (u : UEnv) (e : Ev) (s : St) : (asyncProcess m u e s).err = none := by
+  cases he : (asyncProcessed m u e s).err with
+  | none => rw [asyncProcess_succeeded m u e s he, (asyncChainEnd_fields _ _).2.2.2.2.2.1]; exact he
+  | some x => rw [asyncProcess_failed m u e s (by rw [he]; simp), (asyncChainEnd_fields _ _).2.2.2.2.2.1]
+
+theorem asyncProcess_status (m : Machine) (u : UEnv) (e : Ev) (s : St) :
+    StatusStep s.status (asyncProcess m u e s).status := by
+  cases he : (asyncProcessed m u e s).err with
+  | none => rw [asyncProcess_succeeded m u e s he, (asyncChainEnd_fields _ _).2.2.2.1]; exact asyncProcessed_status m u e s
+  | some x =>
+    rw [asyncProcess_failed m u e s (by rw [he]; simp), (asyncChainEnd_fields _ _).2.2.2.1]
+    exact asyncProcessed_status m u e s
+
+theorem asyncStep_not_tripped (m : Machine) (u : UEnv) (q : QEv) (s : St) (hd : ¬ s.raiseDepth > m.maxIterations) :
+    asyncStep m u q s = asyncProcess m u q.ev s := by
+  unfold asyncStep; rw [if_neg hd]
+
+theorem asyncStep_failed (m : Machine) (u : UEnv) (q : QEv) (s : St) (hd : ¬ s.raiseDepth > m.maxIterations)
+    (he : (asyncProcessed m u q.ev s).err ≠ none) :
+    asyncStep m u q s =
+      asyncChainEnd s.raiseDepth { asyncProcessed m u q.ev s with err := none, errors := s.errors + 1 } := by
+  rw [asyncStep_not_tripped m u q s hd, asyncProcess_failed m u q.ev s he]
+
+theorem asyncStep_succeeded (m : Machine) (u : UEnv) (q : QEv) (s : St) (hd : ¬ s.raiseDepth > m.maxIterations)
+    (he : (asyncProcessed m u q.ev s).err = none) :
+    (asyncStep m u q s).err = none ∧ (asyncStep m u q s).errors = s.errors ∧
+      (asyncStep m u q s).cfg = (asyncProcessed m u q.ev s).cfg ∧
+      (asyncStep m u q s).status = (asyncProcessed m u q.ev s).status := by
+  rw [asyncStep_not_tripped m u q s hd, asyncProcess_succeeded m u q.ev s he]
+  obtain ⟨h1, _, _, h4, _, h6, _, h8⟩ := asyncChainEnd_fields s.raiseDepth (asyncProcessed m u q.ev s)
+  exact ⟨h6.trans he, h8.trans (asyncProcessed_errors m u q.ev s), h1, h4⟩
 
 /-- the async loop never returns with the error flag set -/
-theorem asyncStep_err_none (m : Machine) (u : UEnv) (e : Ev) (s : St) (hs : s.err = none) :
-    (asyncStep m u e s).err = none := by
-  by_cases hd : s.raiseDepth > m.maxIterations
-  · unfold asyncStep; rw [if_pos hd]; exact hs
-  · cases he : (asyncProcessed m u e s).err with
-    | none => exact (asyncStep_succeeded m u e s hd he).1
-    | some x => rw [asyncStep_failed m u e s hd (by rw [he]; simp)]
+theorem asyncStep_err_none (m : Machine) (u : UEnv) (q : QEv) (s : St) (hs : s.err = none) :
+    (asyncStep m u q s).err = none := by
+  unfold asyncStep
+  split
+  · split
+    · exact hs
+    · exact asyncProcess_err_none m u q.ev _
+  · exact asyncProcess_err_none m u q.ev _
 
-theorem asyncStep_status (m : Machine) (u : UEnv) (e : Ev) (s : St) :
-    StatusStep s.status (asyncStep m u e s).status := by
-  by_cases hd : s.raiseDepth > m.maxIterations
-  · unfold asyncStep; rw [if_pos hd]; exact Or.inl rfl
-  · cases he : (asyncProcessed m u e s).err with
-    | none => rw [(asyncStep_succeeded m u e s hd he).2.2.2]; exact asyncProcessed_status m u e s
-    | some x => rw [asyncStep_failed m u e s hd (by rw [he]; simp)]; exact asyncProcessed_status m u e s
+theorem asyncStep_status (m : Machine) (u : UEnv) (q : QEv) (s : St) :
+    StatusStep s.status (asyncStep m u q s).status := by
+  unfold asyncStep
+  split
+  · split
+    · exact Or.inl rfl
+    · exact asyncProcess_status m u q.ev (asyncPurge s)
+  · exact asyncProcess_status m u q.ev s
 
 /-- the state the sync drain loop holds after processing `e` (dequeued from `s`) and settling -/
 def syncProcessed (m : Machine) (u : UEnv) (e : Ev) (s : St) : St :=
